@@ -7,31 +7,31 @@
 #include <stdexcept>
 #include "c11_common.hh"
 
-template<int n>
-static std::string obs1(const Dune::ReservedVector<int, n>& v, std::string& flags)
+template<class T, int n>
+static std::string obs1(const Dune::ReservedVector<T, n>& v, std::string& flags)
 {
   std::vector<int> a(v.begin(), v.end()), r(v.rbegin(), v.rend());
   std::vector<int> rr(r.rbegin(), r.rend());
   if (a != rr) flags += "!rev";
   if (a.size() != v.size() || v.empty() != (v.size() == 0)) flags += "!len";
-  for (std::size_t i = 0; i < a.size(); ++i) if (v[i] != a[i] || v.at(i) != a[i] || v.data()[i] != a[i]) { flags += "!idx"; break; }
+  for (std::size_t i = 0; i < a.size(); ++i) if ((int) v[i] != a[i] || (int) v.at(i) != a[i] || (int) v.data()[i] != a[i]) { flags += "!idx"; break; }
   if (v.capacity() != (std::size_t) n || v.max_size() != (std::size_t) n) flags += "!cap";
   std::string s = std::to_string(v.size()) + "[" + c11::seq_str(a.begin(), a.end()) + "]";
-  if (v.size() > 0) s += std::to_string(v.front()) + "," + std::to_string(v.back()); else s += "-";
+  if (v.size() > 0) s += std::to_string((int) v.front()) + "," + std::to_string((int) v.back()); else s += "-";
   return s;
 }
 
 // the non-const access paths (and the c-prefixed iterator getters) show the same elements as the const ones
-template<int n>
-static void mutable_checks(Dune::ReservedVector<int, n>& v, std::string& flags)
+template<class T, int n>
+static void mutable_checks(Dune::ReservedVector<T, n>& v, std::string& flags)
 {
-  const Dune::ReservedVector<int, n>& c = v;
+  const Dune::ReservedVector<T, n>& c = v;
   std::vector<int> a(c.begin(), c.end());
   if (std::vector<int>(v.begin(), v.end()) != a || std::vector<int>(v.cbegin(), v.cend()) != a || std::vector<int>(c.cbegin(), c.cend()) != a) flags += "!mbegin";
   std::vector<int> r(a.rbegin(), a.rend());
   if (std::vector<int>(v.rbegin(), v.rend()) != r || std::vector<int>(v.crbegin(), v.crend()) != r || std::vector<int>(c.crbegin(), c.crend()) != r) flags += "!mrbegin";
-  for (std::size_t i = 0; i < a.size(); ++i) if (v[i] != a[i] || v.at(i) != a[i] || v.data()[i] != a[i]) { flags += "!midx"; break; }
-  if (!a.empty() && (v.front() != a.front() || v.back() != a.back() || c.front() != a.front() || c.back() != a.back())) flags += "!mfb";
+  for (std::size_t i = 0; i < a.size(); ++i) if ((int) v[i] != a[i] || (int) v.at(i) != a[i] || (int) v.data()[i] != a[i]) { flags += "!midx"; break; }
+  if (!a.empty() && ((int) v.front() != a.front() || (int) v.back() != a.back() || (int) c.front() != a.front() || (int) c.back() != a.back())) flags += "!mfb";
   if (v.end() - v.begin() != (std::ptrdiff_t) a.size() || c.end() - c.begin() != (std::ptrdiff_t) a.size()) flags += "!mdist";
   bool t1 = false, t2 = false;
   try { (void) v.at(a.size()); } catch (std::out_of_range&) { t1 = true; }
@@ -41,54 +41,80 @@ static void mutable_checks(Dune::ReservedVector<int, n>& v, std::string& flags)
   if (os.str() != exp) flags += "!print";
 }
 
-template<int n>
-static void run(const std::vector<std::string>& ops)
+template<class T, int n>
+static void run_t(const std::vector<std::string>& ops)
 {
-  using RV = Dune::ReservedVector<int, n>;
+  using RV = Dune::ReservedVector<T, n>;
+  {
   RV V[2];
   for (const auto& o : ops) {
     auto t = c11::split(o, ':');
     std::string flags, at = "_";
     int i = t.size() > 1 ? (int) c11::num(t[1]) : 0;
     RV& v = V[i];
-    if (t[0] == "pb") { const int x = (int) c11::num(t[2]); v.push_back(x); }          // push_back(const T&)
-    else if (t[0] == "pbm") v.push_back((int) c11::num(t[2]));                          // push_back(T&&)
-    else if (t[0] == "eb") { int& r = v.emplace_back((int) c11::num(t[2])); if (&r != &v.back()) flags += "!eb"; }
+    if (t[0] == "pb") { const T x((int) c11::num(t[2])); v.push_back(x); }          // push_back(const T&)
+    else if (t[0] == "pbm") v.push_back(T((int) c11::num(t[2])));                          // push_back(T&&)
+    else if (t[0] == "eb") { T& r = v.emplace_back((int) c11::num(t[2])); if (&r != &v.back()) flags += "!eb"; }
     else if (t[0] == "mkd") v = RV((std::size_t) c11::num(t[2]));                       // ReservedVector(count): value-initialised storage
     else if (t[0] == "il") { long k = c11::num(t[2]); v = k == 0 ? RV{} : k == 1 ? RV{1} : k == 2 ? RV{1, 2} : RV{1, 2, 3}; }
     else if (t[0] == "pop") v.pop_back();
     else if (t[0] == "rsz") v.resize((std::size_t) c11::num(t[2]));
     else if (t[0] == "cl") v.clear();
-    else if (t[0] == "set") v[(std::size_t) c11::num(t[2])] = (int) c11::num(t[3]);
-    else if (t[0] == "fill") v.fill((int) c11::num(t[2]));
-    else if (t[0] == "mk") v = RV((std::size_t) c11::num(t[2]), (int) c11::num(t[3]));
+    else if (t[0] == "set") v[(std::size_t) c11::num(t[2])] = T((int) c11::num(t[3]));
+    else if (t[0] == "fill") v.fill(T((int) c11::num(t[2])));
+    else if (t[0] == "mk") v = RV((std::size_t) c11::num(t[2]), T((int) c11::num(t[3])));
     else if (t[0] == "from") {
-      std::vector<int> src; if (t.size() > 2 && !t[2].empty()) for (auto& x : c11::split(t[2], ',')) src.push_back((int) c11::num(x));
+      std::vector<T> src; if (t.size() > 2 && !t[2].empty()) for (auto& x : c11::split(t[2], ',')) src.push_back(T((int) c11::num(x)));
       v = RV(src.begin(), src.end());
+    }
+    else if (t[0] == "pbe") v.push_back(v[(std::size_t) c11::num(t[2])]);          // ALIASING: the argument is an element of the vector itself
+    else if (t[0] == "ebe") v.emplace_back(v[(std::size_t) c11::num(t[2])]);
+    else if (t[0] == "fille") v.fill(v[(std::size_t) c11::num(t[2])]);
+    else if (t[0] == "swapr") V[i].swap(V[1 - i]);                                   // ROLES: either vector as the receiver of swap
+    else if (t[0] == "swaps") { RV& self = V[i]; V[i].swap(self); }                 // self-swap
+    else if (t[0] == "asgs") { RV& self = V[i]; V[i] = self; }                      // self-assignment
+    else if (t[0] == "cpyc") {                                                      // copy / move construction; the source is unaffected
+      RV c(v); if (!(c == v)) flags += "!cpy";
+      RV m(std::move(c)); if (!(m == v)) flags += "!mv";
+      std::vector<int> before(v.begin(), v.end());
+      if (m.size() > 0) { m[0] = T(-1); m.pop_back(); } m.clear();
+      if (std::vector<int>(v.begin(), v.end()) != before) flags += "!cpysrc";
+      RV a2; a2 = v; if (!(a2 == v)) flags += "!cpyasg";
     }
     else if (t[0] == "swap") V[0].swap(V[1]);
     else if (t[0] == "asg") v = V[1 - i];
     else if (t[0] == "at") {
-      try { at = std::to_string(v.at((std::size_t) c11::num(t[2]))); } catch (std::out_of_range&) { at = "OOR"; }
+      try { at = std::to_string((int) v.at((std::size_t) c11::num(t[2]))); } catch (std::out_of_range&) { at = "OOR"; }
     }
     else { c11::step_done("UNKNOWN-OP"); continue; }
-    mutable_checks<n>(V[0], flags); mutable_checks<n>(V[1], flags);
+    mutable_checks<T, n>(V[0], flags); mutable_checks<T, n>(V[1], flags);
     const RV& A = V[0]; const RV& B = V[1];
-    if (A == B && (hash_value(A) != hash_value(B) || std::hash<RV>()(A) != std::hash<RV>()(B))) flags += "!hash";
+    if constexpr (std::is_same_v<T, int>) { if (A == B && (hash_value(A) != hash_value(B) || std::hash<RV>()(A) != std::hash<RV>()(B))) flags += "!hash"; }
     bool e = (A == B), l1 = (A < B), l2 = (B < A);
+    // ROLES / self arguments: B as the receiver of every comparison, and each vector compared with itself
+    if ((B == A) != e || (B != A) == e || (B > A) != l1 || (B <= A) != !l1 || (B >= A) != !l2) flags += "!cmproles";
+    if (!(A == A) || (A != A) || (A < A) || (A > A) || !(A <= A) || !(A >= A) || !(B == B) || (B < B)) flags += "!cmpself";
     if ((A != B) == e || (A > B) != l2 || (A <= B) != !l2 || (A >= B) != !l1) flags += "!cmp";
-    std::string s = obs1<n>(A, flags) + " " + obs1<n>(B, flags) + " " + (e ? "1" : "0") + (l1 ? "1" : "0") + (l2 ? "1" : "0") + " " + at
+    std::string s = obs1<T, n>(A, flags) + " " + obs1<T, n>(B, flags) + " " + (e ? "1" : "0") + (l1 ? "1" : "0") + (l2 ? "1" : "0") + " " + at
                     + " " + ((A != B) ? "1" : "0") + ((A > B) ? "1" : "0") + ((A <= B) ? "1" : "0") + ((A >= B) ? "1" : "0");
     c11::step_done(s + flags);
   }
 }
+  c11::leak_step();
+}
+
+template<int n> static void run(const std::vector<std::string>& ops) { run_t<int, n>(ops); }
 
 int main(int argc, char** argv)
 {
   return c11::main_loop(argc, argv, "rv", [](int n, const std::vector<std::string>& ops) {
     switch (n) {
+      case 0: run<0>(ops); break;
       case 1: run<1>(ops); break; case 2: run<2>(ops); break; case 3: run<3>(ops); break;
       case 4: run<4>(ops); break; case 5: run<5>(ops); break; case 8: run<8>(ops); break;
+      // element-type family: n + 1000 = the same capacity with the instance-tracking element type
+      case 1001: run_t<c11::Tracked, 1>(ops); break; case 1002: run_t<c11::Tracked, 2>(ops); break;
+      case 1003: run_t<c11::Tracked, 3>(ops); break; case 1005: run_t<c11::Tracked, 5>(ops); break;
       default: c11::step_done("UNKNOWN-N");
     }
   });
